@@ -521,8 +521,21 @@ type CallExpression struct {
 	Arguments []Expression
 }
 
+// writeLeftHandSide prints the callee of a call, the object of a member access or the target of an
+// assignment. These positions take a call-level expression; anything that binds looser (`a + b`, `-a`,
+// `a = b`) is parenthesised: `(a + b)(c)`, `(-a).c`, `(a = b) = c`.
+func writeLeftHandSide(cw *CodeWriter, exp Expression) {
+	if exp.Precedence() < PrecedenceCall {
+		cw.WriteRune('(')
+		exp.WriteTo(cw)
+		cw.WriteRune(')')
+	} else {
+		exp.WriteTo(cw)
+	}
+}
+
 func (ce *CallExpression) WriteTo(cw *CodeWriter) {
-	ce.Function.WriteTo(cw)
+	writeLeftHandSide(cw, ce.Function)
 	cw.WriteLeadingComments(ce.Token.LeadingComments)
 	cw.AddMapping(ce.Token.Start)
 	cw.WriteRune('(')
@@ -550,7 +563,7 @@ type MemberExpression struct {
 }
 
 func (me *MemberExpression) WriteTo(cw *CodeWriter) {
-	me.Object.WriteTo(cw)
+	writeLeftHandSide(cw, me.Object)
 	cw.WriteLeadingComments(me.Token.LeadingComments)
 	if me.Computed {
 		cw.AddMapping(me.Token.Start)
@@ -575,7 +588,7 @@ type AssignmentExpression struct {
 }
 
 func (ae *AssignmentExpression) WriteTo(cw *CodeWriter) {
-	ae.Left.WriteTo(cw)
+	writeLeftHandSide(cw, ae.Left)
 	cw.WriteSpace()
 	cw.WriteLeadingComments(ae.Token.LeadingComments)
 	cw.AddMapping(ae.Token.Start)
@@ -596,7 +609,7 @@ type CompoundAssignmentExpression struct {
 }
 
 func (cae *CompoundAssignmentExpression) WriteTo(cw *CodeWriter) {
-	cae.Left.WriteTo(cw)
+	writeLeftHandSide(cw, cae.Left)
 	cw.WriteSpace()
 	cw.WriteLeadingComments(cae.Token.LeadingComments)
 	cw.AddMapping(cae.Token.Start)
